@@ -7,7 +7,7 @@ from typing import Dict, Iterable, List, Optional, Set, Tuple
 
 from fsa.cfg import CFG, Node, raised_class
 from fsa.flow import LocalFlow, PARAM, dominators, guards, node_expr_roots
-from fsa.match import conj_atoms, disj_atoms, dotted, nnf_atoms, substitute
+from fsa.match import conj_atoms, disj_atoms, dotted, is_const, kwarg, nnf_atoms, substitute
 from fsa.source import AnchorMissing, FunctionInfo, Repo, Unsupported, iter_own_nodes, text
 from rules.solver_common import fsic_hierarchy
 
@@ -569,6 +569,35 @@ class Fn:
     def path_to(self, n: Node) -> List[str]:
         p = self.cfg.some_path(self.cfg.entry, n.id)
         return self.cfg.describe_path(p) if p else []
+
+
+def exec_source(f: 'Fn', nid: int, arg: Optional[ast.AST], depth: int = 0):
+    """What an `exec(arg, ...)` at node `nid` runs, read back through locals and through `compile(text, name, 'exec')`:
+    (source expression, faithful).  `faithful` is False when a compile() on the way changes what the text means
+    (`optimize=` above the interpreter's own level strips assert / __debug__ / docstrings; a mode other than 'exec')."""
+    faithful = True
+    cur, at = arg, nid
+    for _ in range(6):
+        if isinstance(cur, ast.Name) and cur.id in f.lf.locals:
+            vals = f.lf.values_reaching(at, cur.id)
+            if len(vals) == 1 and vals[0][0] != PARAM and vals[0][1] is not None:
+                at, cur = vals[0][0], vals[0][1]
+                continue
+            return cur, faithful
+        if isinstance(cur, ast.Call) and dotted(cur.func) == 'compile' and cur.args:
+            mode = cur.args[2] if len(cur.args) > 2 else kwarg(cur, 'mode')
+            if not is_const(mode, 'exec'):
+                faithful = False
+            opt = kwarg(cur, 'optimize') or (cur.args[5] if len(cur.args) > 5 else None)
+            if opt is not None and not is_const(opt, -1):
+                faithful = False
+            flags = kwarg(cur, 'flags') or (cur.args[3] if len(cur.args) > 3 else None)
+            if flags is not None and not is_const(flags, 0):
+                faithful = False
+            cur = cur.args[0]
+            continue
+        return cur, faithful
+    return cur, faithful
 
 
 def module_bound_names(repo: Repo, modname: str) -> Set[str]:
